@@ -473,6 +473,17 @@ def go_test(ctx, pkg, overlays, run, env=None, race=False, timeout=900, tags="ve
     ov = {"Replace": {}}
     for rel, src in overlays.items():
         pkgname = None
+        if callable(src):
+            # source transformation of the repository file itself (e.g. yield points at lock boundaries):
+            # the CURRENT file of the tree under test is read, transformed and overlaid on itself
+            orig = os.path.join(REPO, rel)
+            with open(orig) as f:
+                text = src(f.read())
+            tpath = os.path.join(d, "tr_" + rel.replace("/", "_"))
+            with open(tpath, "w") as f:
+                f.write(text)
+            ov["Replace"][orig] = tpath
+            continue
         if isinstance(src, tuple):
             src, pkgname = src
         src = src if os.path.isabs(src) else os.path.join(HARNESS, src)
@@ -513,6 +524,34 @@ def go_test(ctx, pkg, overlays, run, env=None, race=False, timeout=900, tags="ve
     with open(os.path.join(d, "go.out"), "w") as f:
         f.write(p.stdout)
     return p.returncode, p.stdout, d
+
+
+_LOCK_RE = re.compile(r"^(\s*)((?:\w+\.)*\w+)\.(Lock|RLock)\(\)\s*$")
+_UNLOCK_RE = re.compile(r"^(\s*)((?:\w+\.)*\w+)\.(Unlock|RUnlock)\(\)\s*$")
+_DEFER_UNLOCK_RE = re.compile(r"^(\s*)defer ((?:\w+\.)*\w+)\.(Unlock|RUnlock)\(\)\s*$")
+
+
+def yield_at_locks(text):
+    """Source transformation used with go_test overlays: put a call to verifYield() before every mutex
+    acquisition and after every release (also deferred ones) of a Go source file, keeping line numbers.
+    verifYield (harness/common/yield.go.txt) randomly yields / spins when a harness switches it on, which
+    widens the windows between critical sections - wherever the code under test puts them."""
+    out = []
+    for ln in text.split("\n"):
+        m = _LOCK_RE.match(ln)
+        if m:
+            out.append("%sverifYield(); %s.%s()" % m.groups())
+            continue
+        m = _UNLOCK_RE.match(ln)
+        if m:
+            out.append("%s%s.%s(); verifYield()" % m.groups())
+            continue
+        m = _DEFER_UNLOCK_RE.match(ln)
+        if m:
+            out.append("%sdefer func() { %s.%s(); verifYield() }()" % m.groups())
+            continue
+        out.append(ln)
+    return "\n".join(out)
 
 
 # ----------------------------------------------------------------------------------------------
